@@ -438,8 +438,10 @@ def tasks(tier, seed):
     ts = [(verify, (c, m, q, v)) for c, m, q, v in kv.ALL]
     from ..contracts import facade, kvnew
     ts += [(verify, (c, m, q, v)) for c, m, q, v in facade.ALL]
-    from ..contracts import facade2
+    from ..contracts import facade2, kvquery
     ts += [(verify, (c, m, q, v)) for c, m, q, v in facade2.ALL]
+    # the public queries on a scalar and on a sequence of any length: valid <=> every node in the interval; span / mult element-wise, ValueError iff some node is outside
+    ts += [(verify, (c, m, q, v)) for c, m, q, v in kvquery.ALL]
     ts += [(verify, (c, m, q, v)) for c, m, q, v in kvnew.ALL]
     ts.append((task_frames_kv, ()))
     maxlen = 6 if tier == "quick" else 8
